@@ -90,8 +90,8 @@ class OrderedSetStub:
 
 
 class DefaultDictStub(dict):
-    def __init__(self, factory=None):
-        super().__init__()
+    def __init__(self, factory=None, *args, **kw):
+        super().__init__(*args, **kw)  # defaultdict(factory, <mapping or pairs>, **items) like the original
         self.factory = factory
 
     def __missing__(self, k):
